@@ -90,3 +90,25 @@ func VerifHarness_C06_PNG_LongName() {
 		verifAssert(data == nil, "PNG iCCP with unterminated 80-byte name: profile bytes returned")
 	}
 }
+
+var verifC06BigSizes = 2
+
+// VerifHarness_C06_PNG_Large: profiles of 64 KiB+1, 1 MiB+1 and 3 MiB (inflate stub output
+// of that size, concrete content) come back byte for byte.
+func VerifHarness_C06_PNG_Large() {
+	verifZlibBigOut = []int{65537, 1<<20 + 1, 3 << 20}[verifChoice(verifC06BigSizes)]
+	VerifInstallZlibStub()
+	in, _, _, _ := VerifBuildPNGICC(0, 1, 8)
+	md, _, err := Load(bytes.NewReader(in))
+	verifAssert(verifAnd(err == nil, md != nil), "PNG with large iCCP: basic metadata not returned")
+	if err != nil || md == nil || len(VerifZlibMode) != 1 {
+		return
+	}
+	data, perr := md.ICCProfileData()
+	if VerifZlibMode[0] == 1 {
+		verifReach("png-iccp-large")
+		verifAssert(perr == nil, "large PNG iCCP: accessor reports an error")
+		verifAssert(len(data) == len(VerifZlibOut[0]), "large PNG iCCP: returned profile has a different length than inflate's output")
+		verifAssert(verifEqBytes(data, VerifZlibOut[0]), "large PNG iCCP: bytes differ from inflate's output")
+	}
+}
